@@ -12,9 +12,9 @@
                  rename source as (owner, names)); outputs are LABELLED (owner, names, parent?)
                  and only `realise` turns them into paths (base of the owner ++ names)
 
-   Proofs/PathsSess.v equates the two and proves confinement in the CURRENT user's base for
-   every output whose owner is the current user (and that is not the parent probe of the
-   virtual root); the two exceptions are real (findings F18, F19). *)
+   Proofs/PathsSess.v equates the two, proves that every output is owned by the CURRENT user
+   (user() drops a pending rename source since the repair of F18) and confined in the current
+   user's base unless it is the parent probe of the virtual root (finding F19). *)
 From Coq Require Import ZArith List Bool.
 From Verif Require Import Lib.Sx Lib.PyStr Lib.PosixPath Model.Paths Model.PathsWin.
 Import ListNotations.
@@ -45,8 +45,8 @@ Definition sess_step (users : list suser) (st : sst) (e : sev) : sst * list ppat
   match e with
   | ELogin i =>
       match nth_error users i with
-      | Some u => (mkst (u_base u) (u_home u) (s_rnfr st), [])       (* rename_from is NOT touched by user() *)
-      | None => (st, [])
+      | Some u => (mkst (u_base u) (u_home u) None, [])      (* user(): del connection.rename_from (F18 repaired) *)
+      | None => (mkst base cwd None, [])                      (* unknown user: 530, nobody logged in; rename_from is gone too *)
       end
   | ENav c =>
       (mkst base (nav_step base cwd c) (s_rnfr st),
@@ -100,8 +100,8 @@ Definition pspec_step (users : list suser) (st : pst) (e : sev) : pst * list lab
   match e with
   | ELogin i =>
       match nth_error users i with
-      | Some u => (mkpst i (parts (u_home u)) (p_rnfr st), [])
-      | None => (st, [])
+      | Some u => (mkpst i (parts (u_home u)) None, [])
+      | None => (mkpst cur stack None, [])
       end
   | ENav (Cwd s ok) =>
       let n := normalize stack s in
